@@ -1,7 +1,7 @@
 """Watchdog process pool: runs tasks in worker subprocesses that import the real code; a task that
 exceeds its time limit (e.g. an unbounded big-integer power inside the tool) kills only its worker.
 """
-import json, os, subprocess, sys, threading, time, queue
+import json, os, shutil, subprocess, sys, threading, time, queue
 
 HERE = os.path.dirname(os.path.abspath(__file__))
 PY = os.environ.get("GASOL_PY", "/venv/bin/python")
@@ -12,6 +12,17 @@ class _Worker:
         self.p = subprocess.Popen([PY, os.path.join(HERE, "worker.py")], stdin=subprocess.PIPE,
                                   stdout=subprocess.PIPE, stderr=subprocess.DEVNULL, env=env, text=True,
                                   bufsize=1)
+        self.scratch = None
+        try:
+            hello = json.loads(self.p.stdout.readline())
+            self.scratch = hello.get("hello")
+        except Exception:
+            pass
+
+    def _rm_scratch(self):
+        # the tool's own scratch directory (/tmp/gasol_<uuid> of that process): remove it when the worker is gone
+        if self.scratch and os.path.basename(self.scratch.rstrip("/")).startswith("gasol_"):
+            shutil.rmtree(self.scratch, ignore_errors=True)
 
     def run(self, task, timeout):
         """returns (result dict | None, status)"""
@@ -49,6 +60,7 @@ class _Worker:
             self.p.wait(5)
         except Exception:
             pass
+        self._rm_scratch()
 
     def close(self):
         try:
@@ -56,6 +68,7 @@ class _Worker:
             self.p.wait(10)
         except Exception:
             self.kill()
+        self._rm_scratch()
 
 
 def run_tasks(tasks, nproc=None, timeout=30, env_extra=None, progress=None):
